@@ -396,6 +396,18 @@ func c15Scenarios(tier string) []*world.Scenario {
 			add(fmt.Sprintf("loss-mid-reply/%s/cut%d", kind, cut), "backend-close-mid-reply", "lost-on-partial-reply-close", sc)
 		}
 	}
+	// the lost connection still has unsent request bytes parked for a node that stopped reading; and a CLIENT with a reply
+	// backlog is closed: in both cases the final flush cannot complete and closing must not hang the loop
+	for _, kind := range []string{"backend-rst", "backend-close"} {
+		sc := CloseBackendWithBacklog("C15", kind, b)
+		sc.Ticks = nil
+		add(fmt.Sprintf("close-with-backlog/%s", kind), "close-with-backlog", "lost-on-backend-close", sc)
+		sc.Check = CloseBackendWithBacklog("C15", kind, b).Check
+	}
+	for _, how := range []string{"quit", "garbage"} {
+		sc := CloseClientWithBacklog("C15", how, b)
+		out = append(out, sc)
+	}
 	// redirect naming a node the proxy does not know
 	for _, n := range []string{"get", "mget-split", "get-get"} {
 		cs := ClientOf(pipes[n], true)
